@@ -209,6 +209,9 @@ func checkCase(c Case) error {
 	if tw, err := gen.Twin(signer, (c.Key+2)%8); err == nil {
 		others["same issuer and serial, other key"] = tw.Cert
 	}
+	if at, err := gen.AlienTwin(signer, len(c.Sig)); err == nil {
+		others["same issuer and serial, a key that is not an RSA key"] = at
+	}
 	if c.Key >= 0 {
 		if sb, err := gen.Sibling(signer); err == nil {
 			others["same key and issuer, other serial"] = sb.Cert
